@@ -493,6 +493,25 @@ func newGen(prop, tier string, r *rand.Rand) *gen {
 
 // generate draws one scenario for a property profile.
 func generate(prop, tier string, r *rand.Rand, idx int) any {
+	sc := generate1(prop, tier, r)
+	if sc.Ctx.Kind != "" && r.IntN(3) == 0 {
+		// the cancellation arrives through another Context implementation: what
+		// counts is Done() and Err(), not how the context was made
+		sc.Ctx.Impl = pick(r, []string{"cause", "custom"})
+	}
+	for _, n := range sc.Nodes {
+		if (n.Kind == "func" || n.Kind == "batch") && !n.Hand {
+			for i := range n.Settings {
+				if n.Settings[i].Form == "opt" && r.IntN(5) == 0 {
+					n.Settings[i].Plain = true // handed to the constructor as a plain func(*BaseNode)
+				}
+			}
+		}
+	}
+	return sc
+}
+
+func generate1(prop, tier string, r *rand.Rand) *Scn {
 	switch prop {
 	case "C01":
 		return genC01(prop, tier, r)
@@ -608,6 +627,21 @@ func genC02base(prop, tier string, r *rand.Rand) *Scn {
 			}
 		default:
 			g.sc.Root = g.tree(1+r.IntN(4), 1+r.IntN(2), 0.3)
+			if r.IntN(3) == 0 {
+				// a flow is retryable like any node: a failed pass over its path is
+				// one attempt, the next attempt starts again at its start node
+				var flows []*NodeSpec
+				for _, n := range g.sc.Nodes {
+					if n.Kind == "flow" {
+						flows = append(flows, n)
+					}
+				}
+				f := pick(r, flows)
+				f.Settings = []Setting{{Param: "retries", Form: "opt", Val: 2 + r.IntN(2)}}
+				if r.IntN(3) == 0 {
+					f.Settings = append(f.Settings, Setting{Param: "wait", Form: "opt", Val: 10})
+				}
+			}
 		}
 		return g.sc
 	})
@@ -1166,6 +1200,22 @@ func genC18(prop, tier string, r *rand.Rand) *Scn {
 		}
 		g.sc.Nodes = append(g.sc.Nodes, f)
 		g.sc.Root = f.ID
+	}
+	if r.IntN(5) == 0 {
+		// the context is cancelled from inside one of the node's callbacks: the
+		// run may fail with the context's error, but a success is still a success
+		g.sc.Ctx.Kind = "cancel"
+		vs := &n.Visits[0]
+		switch {
+		case n.Kind == "batch" && len(vs.Items) > 0 && r.IntN(3) > 0:
+			vs.Items[r.IntN(len(vs.Items))].Exec[0].Cancel = true
+		case hasPhase(n, 2) && r.IntN(2) == 0:
+			vs.Post.Cancel = true
+		case n.Kind != "batch" && hasPhase(n, 1):
+			vs.Exec[len(vs.Exec)-1].Cancel = true
+		default:
+			vs.Prep.Cancel = true
+		}
 	}
 	return g.sc
 }
